@@ -283,10 +283,27 @@ PROPS = {
         "technique": "Lean 4 proofs of the decision logic + running-allowance invariant by induction over op sequences + differential correspondence on real transactions",
         "explanation": "Identity matrix (signer/contract as caller × signer/contract/third party as delegator) × grant states (absent, limited at limit−1/limit/limit+1, unlimited, revoked, validators created after the approval) exercised with real transactions; verdict and resulting grant compared with the model; independent monitors for third-party effects, coverage and exact reduction.",
     },
+    "C16": {
+        "id": "C16",
+        "lean_modules": ["HaqqModel.Props.C16"],
+        "level": "proof",
+        "no_model": True,
+        "trusted_base": COMMON_TRUST + [
+            "modelled, not verified: the native message servers of the SDK's staking and distribution modules are a parameter (what the theorem shows is that the owner's precompile call is that native message, not what the native message does); ABI decoding by go-ethereum; ICS-20 transfer needs an IBC channel and is covered by the source facts only, not by the fork run",
+        ],
+        "assumptions": [
+            "the first EVM call to a precompile address creates an (empty) account for that address; the fork run creates these accounts up front on both forks, they are not an effect of the message",
+            "gas and fee movements are excluded (the precompile fork runs through EvmKeeper.ApplyMessage without fees)",
+        ],
+        "level_text": "Machine-checked (Lean 4): in the authority model a call whose caller, signer and delegator coincide consults and changes no grant and succeeds exactly when the native message does (all grant states, all arguments); kernel-checked over facts regenerated from the source: every staking and distribution transaction method decodes its arguments into exactly the pinned native message literal, validates it, and passes it unchanged to the module's own message server, and synchronises the EVM's cached balances with the bank afterwards (C02's conservation theorem then gives the balance side). Tied to the code by a fork differential: the same state forked twice, native message on one fork, precompile call by the owner on the other, success and six stores compared key by key; read-only staking and bank precompile methods compared with the keepers.",
+        "level_note": "Trusted: Lean kernel; go/ast extractor; fork harness; the SDK message servers are a parameter of the statement. ICS-20 is covered by source facts only.",
+        "technique": "Lean 4 theorem on the owner path of the authority model + kernel-checked regenerated mapping facts + fork differential (native message vs precompile call) with key-by-key store comparison",
+        "explanation": "Owner path proved to be the native message; argument mapping and message-server hand-off regenerated from the source and pinned; delegate / undelegate / redelegate / cancelUnbondingDelegation / setWithdrawAddress / withdrawDelegatorRewards run on twin forks of growing states with boundary amounts, unknown validators, blocked and module withdraw addresses, pending rewards; staking and bank precompile queries compared with module answers.",
+    },
 }
 
 # properties not (yet) claimed, each with a reason; entries disappear as checks are built
 NOT_APPLICABLE = {pid: "check not built yet in this session (planned: see DESIGN.md §5)" for pid in
-                  ["C03", "C10", "C16"]}
+                  ["C03", "C10"]}
 
 HOOK_COMMITS = []
